@@ -161,24 +161,10 @@ Proof.
   destruct (str_eqb name (s2l "quit")); reflexivity.
 Qed.
 
-Lemma process_command_record fuel : forall s input, record_of (fst (process_command fuel s input)) = record_of s.
+Lemma process_command_record fuel s input : record_of (fst (process_command fuel s input)) = record_of s.
 Proof.
-  induction fuel as [|f IH]; intros s input; cbn [process_command]; [reflexivity|].
-  destruct (split_first_space (strip input)) as [a0 a1].
-  set (first := strip (no_color a0)). set (second := match a1 with Some r => strip (no_color r) | None => [] end).
-  destruct first as [|c first'] eqn:Ef.
-  - destruct second as [|c2 second'] eqn:Es; [|reflexivity].
-    cbn [str_eqb list_eqb orb]. (* first1 = "help" *)
-    change (str_eqb (s2l "help") [119%N] || str_eqb (s2l "help") (s2l "wl")) with false. cbn iota.
-    change (starts_with (s2l "wl") (s2l "help")) with false. cbn iota.
-    destruct (get_command' s (s2l "help")) as [[name|] errs].
-    + pose proof (run_command_record s name []) as H. destruct (run_command s name []). exact H.
-    + reflexivity.
-  - destruct (str_eqb (c :: first') [119%N] || str_eqb (c :: first') (s2l "wl")).
-    + pose proof (IH s second) as H. destruct (process_command f s second). exact H.
-    + destruct (get_command' s _) as [[name|] errs].
-      * pose proof (run_command_record s name second) as H. destruct (run_command s name second). exact H.
-      * reflexivity.
+  unfold process_command. destruct (resolve_cmd fuel (s_color s) input) as [pre [[name arg]|]]; [|reflexivity].
+  pose proof (run_command_record s name arg) as H. destruct (run_command s name arg). exact H.
 Qed.
 
 (* C06/C11: whatever the user types, nothing that is recorded changes *)
